@@ -144,8 +144,7 @@ func Run(c *fw.Ctx) {
 	c.SetRule("values are enumerated injectively (every type x xid x option sequence up to the bound over the instance corpus, every instance x container, every listed chain/relay chain once); every case is non-trivial in the sense that the value is encoded, decoded by library and reference, and all three trees are compared; non-trivial count = cases whose comparisons all ran")
 	if tab, err := adapt.ExtractV6OptionTable(); err != nil {
 		c.Extra("option_table_error", err.Error())
-		c.Report(fw.Violation{Fingerprint: "harness|option-table|cannot-extract", Order: 0, Scope: "binding", Observed: err.Error(),
-			Expected: "ParseOption switch found in the dhcpv6 sources"})
+		// coverage bookkeeping only: not being able to list the parsed codes is not a property violation
 	} else {
 		cov := adapt.CompareV6Tables(tab)
 		un := cov.Uncovered
@@ -163,7 +162,8 @@ func Run(c *fw.Ctx) {
 		}
 		c.Extra("uncovered_option_types", un)
 		c.Extra("option_types_lost_from_switch", cov.Lost)
-		c.Extra("option_table", map[string]any{"source_dir": tab.Dir, "parse_option_codes": tab.Top, "ntp_suboption_codes": tab.NTP})
+		c.Extra("option_table", map[string]any{"source_dir": tab.Dir, "parse_option_codes": tab.Top, "ntp_suboption_codes": tab.NTP,
+			"how": "measured on the compiled library: ParseOption(code, empty value) is an error or not the generic option", "source_switch_codes": tab.SourceTop, "source_note": tab.SourceNote})
 	}
 	ins := corpus6.Instances()
 	N := int64(len(ins))
@@ -416,6 +416,77 @@ func Run(c *fw.Ctx) {
 		}
 	}
 	c.Sample(fmt.Sprintf("NewMessage(type=1, xid=010203, options=%s)", seqName([]int64{0, N - 1})))
+
+	// (5) decoded-then-edited values (see edit.go)
+	{
+		type src struct {
+			name  string
+			build func() dhcpv6.DHCPv6
+		}
+		var srcs []src
+		for _, in := range ins {
+			in := in
+			srcs = append(srcs, src{"msg[" + in.Name + "]", func() dhcpv6.DHCPv6 { return corpus6.NewMessage(7, [3]byte{1, 2, 3}, in.Build()) }})
+		}
+		for _, ns := range nests {
+			for _, in := range corpus6.Reduced() {
+				if ns.wrap(in.Build()) == nil {
+					continue
+				}
+				ns, in := ns, in
+				srcs = append(srcs, src{"msg[" + ns.name + "{" + in.Name + "}]", func() dhcpv6.DHCPv6 { return corpus6.NewMessage(1, [3]byte{1, 2, 3}, ns.wrap(in.Build())) }})
+			}
+		}
+		for _, depth := range []int{1, 2, 3} {
+			for _, in := range corpus6.Reduced() {
+				depth, in := depth, in
+				srcs = append(srcs, src{fmt.Sprintf("relay-chain(%d)[%s]", depth, in.Name), func() dhcpv6.DHCPv6 {
+					return corpus6.RelayChain(depth, corpus6.NewMessage(1, [3]byte{1, 2, 3}, in.Build()), 0x66666666)
+				}})
+			}
+		}
+		for _, sub := range corpus6.NTPSubInstances() {
+			sub := sub
+			srcs = append(srcs, src{"msg[NTP{" + sub.Name + "}]", func() dhcpv6.DHCPv6 { return corpus6.NewMessage(7, [3]byte{1, 2, 3}, corpus6.NTPWrap(sub.Build())) }})
+		}
+		var eCases, eSites atomic.Int64
+		base := ord
+		c.Range(int64(len(srcs)), func(i int64) {
+			s := srcs[i]
+			d0 := decodedForEdit(s.build(), false)
+			if d0 == nil {
+				return
+			}
+			n := len(collectEdits(d0))
+			eSites.Add(int64(n))
+			for k := 0; k < n; k++ {
+				for _, warm := range []bool{false, true} {
+					k, warm := k, warm
+					path := ""
+					ok := Check(c, "5:decoded-then-edited", base+i*4096+int64(2*k),
+						func() string {
+							return fmt.Sprintf("decode(encode(%s)), warm=%v, then edit %s", s.name, warm, path)
+						},
+						func() dhcpv6.DHCPv6 {
+							d := decodedForEdit(s.build(), warm)
+							e := collectEdits(d)
+							path = e[k].path
+							e[k].apply()
+							return d
+						})
+					if ok {
+						c.Nontrivial(1)
+					}
+					eCases.Add(1)
+				}
+			}
+		})
+		ord += int64(len(srcs)) * 4096
+		c.Eval(eCases.Load())
+		c.Scope("5:decoded-then-edited", "sources", len(srcs), "edit_sites", eSites.Load(), "variants", "cold / after Summary+String+ToBytes", "cases", eCases.Load(),
+			"edits", "one exported field per case: integers ^1, durations -/+1s, booleans toggled, byte strings / addresses changed in place and by replacement, names assigned element-wise, arrays [0]^1")
+		c.Sample("decode(encode(msg[IA_NA...])), then edit m.Options.Options[0].T1")
+	}
 
 	unadMu.Lock()
 	ul := []string{}
